@@ -392,6 +392,36 @@ class NPProxy(object):
             return obj_full(shape, 0)
         return real_np.empty(shape, dtype=dtype, **kw)
 
+    def _to_obj_domain(self, a, dtype):
+        """np.asarray/np.array(x, dtype=<numeric>) on symbolic data: stay in the object domain with the conversion's semantics"""
+        try:
+            kind = np.dtype(dtype).kind
+        except TypeError:
+            return None
+        if kind not in 'fiub':
+            return None
+        arr = real_np.asarray(a, dtype=object)
+        if not isinstance(arr, SymArray):
+            arr = arr.view(SymArray)
+        return arr.astype(dtype)
+
+    def asarray(self, a, dtype=None, *args, **kw):
+        if dtype is not None and has_sym(a):
+            r = self._to_obj_domain(a, dtype)
+            if r is not None:
+                return r
+        return real_np.asarray(a, dtype, *args, **kw)
+
+    def array(self, obj, dtype=None, *args, **kw):
+        if dtype is not None and has_sym(obj):
+            r = self._to_obj_domain(obj, dtype)
+            if r is not None:
+                if kw.get('ndmin'):
+                    while r.ndim < kw['ndmin']:
+                        r = r[None]
+                return r
+        return real_np.array(obj, dtype, *args, **kw)
+
     def full(self, shape, fill_value, dtype=None, **kw):
         dt = dtype
         if dt is None and not is_symbolic(fill_value):
@@ -406,45 +436,38 @@ class NPProxy(object):
             return out
         return real_np.full(shape, fill_value, dtype=dtype, **kw)
 
-    def full_like(self, a, fill_value, dtype=None, **kw):
-        a = np.asarray(a)
-        dt = a.dtype if dtype is None else dtype
-        if a.dtype == object or is_symbolic(fill_value) or self._want_obj(dt):
-            if np.dtype(dt).kind == 'b':
-                return real_np.full(a.shape, bool(fill_value), dtype=bool)
-            return obj_full(a.shape, fill_value)
-        return real_np.full_like(a, fill_value, dtype=dtype, **kw)
-
-    def empty_like(self, a, dtype=None, **kw):
-        a = np.asarray(a)
-        dt = a.dtype if dtype is None else dtype
-        if a.dtype == object or self._want_obj(dt):
-            if np.dtype(dt).kind == 'b':
-                return real_np.zeros(a.shape, dtype=bool)
-            return obj_full(a.shape, 0)
-        return real_np.empty_like(a, dtype=dtype, **kw)
-
-    def zeros_like(self, a, dtype=None, **kw):
+    def _like(self, real_fn, a, fill, dtype, kw, extra=()):
         proto_int = isinstance(a, IntSymArray) and dtype is None
         a = np.asarray(a)
         dt = a.dtype if dtype is None else dtype
         shape = kw.get('shape', None)
         shape = a.shape if shape is None else shape
-        if a.dtype == object or self._want_obj(dt):
-            if np.dtype(dt).kind == 'b':
-                return real_np.zeros(shape, dtype=bool)
-            out = obj_full(shape, 0)
-            if proto_int or (a.dtype != object and np.dtype(dt).kind in 'iu') or (dtype is not None and np.dtype(dt).kind in 'iu'):
+        if a.dtype == object or is_symbolic(fill) or self._want_obj(dt):
+            try:
+                kind = np.dtype(dt).kind
+            except TypeError:
+                kind = 'O'
+            if kind == 'b':
+                return real_np.full(shape, bool(fill), dtype=bool)
+            out = obj_full(shape, fill)
+            if proto_int or (kind in 'iu' and (dtype is not None or a.dtype != object)):
                 out = out.view(IntSymArray)
+                if isinstance(fill, (float, np.floating)):
+                    out[...] = fill          # truncates
             return out
-        return real_np.zeros_like(a, dtype=dtype, **kw)
+        return real_fn(a, *extra, dtype=dtype, **kw)
+
+    def full_like(self, a, fill_value, dtype=None, **kw):
+        return self._like(real_np.full_like, a, fill_value, dtype, kw, extra=(fill_value,))
+
+    def empty_like(self, a, dtype=None, **kw):
+        return self._like(real_np.empty_like, a, 0, dtype, kw)
+
+    def zeros_like(self, a, dtype=None, **kw):
+        return self._like(real_np.zeros_like, a, 0, dtype, kw)
 
     def ones_like(self, a, dtype=None, **kw):
-        a = np.asarray(a)
-        dt = a.dtype if dtype is None else dtype
-        if a.dtype == object or self._want_obj(dt):
-            return obj_full(a.shape, 1)
-        return real_np.ones_like(a, dtype=dtype, **kw)
+        return self._like(real_np.ones_like, a, 1, dtype, kw)
 
     # ---- predicates that numpy does not define on objects
     def isnan(self, x, **kw):
@@ -566,6 +589,52 @@ class NPProxy(object):
                 i += 1
             out[idx] = i
         return out
+
+    def bincount(self, x, weights=None, minlength=0):
+        w_ = None if weights is None else np.asarray(weights)
+        x_ = np.asarray(x)
+        if x_.dtype != object and (w_ is None or w_.dtype != object):
+            return real_np.bincount(x, weights=weights, minlength=minlength)
+        _used('np.bincount with object weights (sum of the weights per non-negative integer bin)')
+        if x_.ndim != 1 or (w_ is not None and w_.shape != x_.shape):
+            raise ValueError("The weights and list don't have the same length." if w_ is not None else "object too deep for desired array")
+        idx = []
+        for v in x_.flat:
+            if isinstance(v, (SymReal, SymInt)):
+                v = int(v)                      # concretised by forking on the path context
+            if isinstance(v, (float, np.floating)):
+                raise TypeError("Cannot cast array data from dtype('float64') to dtype('int64') according to the rule 'safe'")
+            if int(v) < 0:
+                raise ValueError("'list' argument must have no negative elements")
+            idx.append(int(v))
+        n = max([minlength] + [i + 1 for i in idx])
+        if w_ is None:
+            out = real_np.zeros(n, dtype=real_np.intp)
+            for i in idx:
+                out[i] += 1
+            return out
+        out = obj_full((n,), 0)
+        for i, wv in zip(idx, w_.flat):
+            out[i] = out[i] + wv
+        return out
+
+    def fmod(self, x1, x2, *args, **kw):
+        if not has_sym(x1, x2) or args or kw:
+            return real_np.fmod(x1, x2, *args, **kw)
+        _used('np.fmod on object arrays (C semantics: the result has the sign of the dividend)')
+
+        def one(a, b):
+            la, lb = lift(a), lift(b)
+            q = la / lb
+            return la - (q.trunc() if isinstance(q, SymReal) else int(q)) * lb
+        a1, a2 = np.asarray(x1, dtype=object), np.asarray(x2, dtype=object)
+        if a1.ndim == 0 and a2.ndim == 0:
+            return one(a1[()], a2[()])
+        b1, b2 = np.broadcast_arrays(a1, a2)
+        out = np.empty(b1.shape, dtype=object)
+        for idx in np.ndindex(b1.shape):
+            out[idx] = one(b1[idx], b2[idx])
+        return out.view(SymArray)
 
     def median(self, a, *args, **kw):
         a_ = np.asarray(a)
@@ -1149,8 +1218,12 @@ class KNNStub(object):
             self.data = self.data[:, None]
         self.n = self.data.shape[0]
 
-    def query(self, x, k=1, distance_upper_bound=float('inf'), **kw):
+    def query(self, x, k=1, distance_upper_bound=float('inf'), eps=0, p=2, workers=1, **kw):
         _used('spatial.cKDTree.query (k-NN contract model: sort by distance with tie forks, inf/n for missing)')
+        if eps != 0 or p != 2 or kw:
+            # an approximate / non-Euclidean search is a different contract: nothing decided under the exact one may be reported
+            raise PathAbort("cKDTree.query called with eps=%r p=%r %r: only the exact Euclidean k-NN contract is modelled" % (eps, p, kw),
+                            kind='engine-gap')
         x = np.asarray(x, dtype=object)
         if x.ndim == 1:
             x = x[:, None]
